@@ -6,32 +6,40 @@ CFG = {'module': 'Dnp3.Props.C20',
  'monitors': ['ffi_struct_fields_lossless', 'ffi_variant_namesake', 'ffi_database_equivalent'],
  'exhaustive_quick': True,
  'exhaustive_thorough': True,
- 'rule': 'engine ffi: (1) EXHAUSTIVE: every conversion arm of ffi/dnp3-ffi/src that is reachable through a public `From` '
-         '(unit variants all of them; payload variants on boundary payloads) is executed through the REAL conversion by '
-         'the generated probe and compared with the generated table (one case per conversion); (2) replay of the known '
-         'findings D21, D22 on the real code; (3) 12 struct conversions checked field by field with pairwise distinct '
-         'values (Flags: all 256 octets; Timestamp: 3 qualities x 5 boundary values, both directions; UpdateOptions: all 6); '
-         '(4) database equivalence: 120 (quick) / 600 (thorough) random sequences of 1..200 operations (add / remove / '
-         'update / update2 / update_flags / get of the 7 measurement types + octet strings, all 6 UpdateOptions, 3 time '
-         'qualities, random flag octets, boundary values/indices, event buffers of size 0..10 so that overflow ids occur) '
-         'applied through `dnp3_database_*` and natively on a twin. distinct = distinct canonical op lists',
- 'trusted_base': ['tools/gen_ffi.py + tools/rsparse.py: Rust token-tree reader that extracts every conversion `match` arm and '
-                  'struct-literal field assignment of ffi/dnp3-ffi/src (macro_rules with one rule are expanded); its reading '
-                  'of the arms is cross-checked against the real `From` impls by the generated probe (748 of 868 arms)',
-                  'rustc: exhaustiveness of every `match` and completeness of every struct literal (a wildcard arm or `..base` '
-                  'would appear in the table and fail the theorems)',
-                  'the oo-bindgen generated `ffi` module (enum <-> c_int, XFields -> X) is exercised by the probe and the '
-                  'database run but not modelled',
-                  'the `c!"..."` notation of Props/C20.lean (text -> character codes) used to write the reviewed lists'],
- 'assumptions': ['conversions of the binding crate are written as `match` arms / struct literals / `T::new(..)` calls (what the '
-                 'translator recognises); a conversion written in another style is reported as a broken tie only if it sits in '
-                 'a recognised conversion position, otherwise it is not seen'],
- 'level_text': 'Lean theorems (kernel-evaluated, whole table) that every conversion arm of the binding crate maps a variant to '
-               'its namesake or to a reviewed rename, that no rename hides an available namesake, that each conversion is '
-               'injective up to the reviewed collapses, and that every struct conversion assigns each field from the '
-               'like-named accessor; the table is regenerated from the source on every run and cross-checked against the '
-               'real conversions by a generated probe; database operations through the binding functions are compared with '
-               'native calls on a twin database',
- 'level_note': 'trusted: Lean kernel, gen_ffi.py (reading validated by the probe for 86% of the arms), rustc exhaustiveness; '
-               'the event buffer\'s transmitted bytes are not compared (only UpdateInfo ids, get results, returned flags); '
-               'cfg-gated (serial/tls) and crate-private conversions are covered by the theorems but not executed'}
+ 'rule': 'engine ffi: (1) EXHAUSTIVE: every conversion arm of ffi/dnp3-ffi/src that is reachable through a '
+         'public `From` (unit variants all of them; payload variants on boundary payloads) is executed '
+         'through the REAL conversion by the generated probe and compared with the generated table (one case '
+         'per conversion); (2) replay of the known findings D21, D22 on the real code; (3) 12 struct '
+         'conversions checked field by field with pairwise distinct values (Flags: all 256 octets; '
+         'Timestamp: 3 qualities x 5 boundary values, both directions; UpdateOptions: all 6); (4) database '
+         'equivalence: 120 (quick) / 600 (thorough) random sequences of 1..200 operations (add / remove / '
+         'update / update2 / update_flags / get of the 7 measurement types + octet strings, all 6 '
+         'UpdateOptions, 3 time qualities, random flag octets, boundary values/indices, event buffers of '
+         'size 0..10 so that overflow ids occur) applied through `dnp3_database_*` and natively on a twin. '
+         'distinct = distinct canonical op lists',
+ 'trusted_base': ['tools/gen_ffi.py + tools/rsparse.py: Rust token-tree reader that extracts every '
+                  'conversion `match` arm and struct-literal field assignment of ffi/dnp3-ffi/src '
+                  '(macro_rules with one rule are expanded); its reading of the arms is cross-checked '
+                  'against the real `From` impls by the generated probe (748 of 868 arms)',
+                  'rustc: exhaustiveness of every `match` and completeness of every struct literal (a '
+                  'wildcard arm or `..base` would appear in the table and fail the theorems)',
+                  'the oo-bindgen generated `ffi` module (enum <-> c_int, XFields -> X) is exercised by the '
+                  'probe and the database run but not modelled',
+                  'the `c!"..."` notation of Props/C20.lean (text -> character codes) used to write the '
+                  'reviewed lists'],
+ 'assumptions': ['conversions of the binding crate are written as `match` arms / struct literals / '
+                 '`T::new(..)` calls (what the translator recognises); a conversion written in another style '
+                 'is reported as a broken tie only if it sits in a recognised conversion position, otherwise '
+                 'it is not seen'],
+ 'level_text': 'Lean theorems (kernel-evaluated, whole table) that every conversion arm of the binding crate '
+               'maps a variant to its namesake or to a reviewed rename, that no rename hides an available '
+               'namesake, that each conversion is injective up to the reviewed collapses, and that every '
+               'struct conversion assigns each field from the like-named accessor; the table is regenerated '
+               'from the source on every run and cross-checked against the real conversions by a generated '
+               'probe; database operations through the binding functions are compared with native calls on a '
+               'twin database',
+ 'level_note': 'trusted: Lean kernel, gen_ffi.py (reading validated by the probe for 86% of the arms), rustc '
+               "exhaustiveness; the event buffer's transmitted bytes are not compared (only UpdateInfo ids, "
+               'get results, returned flags); cfg-gated (serial/tls) and crate-private conversions are '
+               'covered by the theorems but not executed',
+ 'table_diag': 'tools/diag_c20.lean'}
